@@ -880,12 +880,14 @@ def _run_api(script):
       d = op[5]
       t0 = loop.now()
       pre = rig.series_state(name, src)
-      if style == 'inst':
-        with metric_inst().Measure():
+      try:
+        cm = metric_inst().Measure() if style == 'inst' else getattr(V, attr).Measure(src)
+        with cm:
           loop.run_for(d)
-      else:
-        with getattr(V, attr).Measure(src):
-          loop.run_for(d)
+      except Exception:           # a recording that raises is a recording that was lost (the oracle decides)
+        rig.raised_rec += 1
+        if loop.now() - t0 < d:
+          loop.run_for(d - (loop.now() - t0))
       if loop.now() - t0 != d:
         raise RuntimeError('virtual clock did not advance by %r' % d)
       rig.log_update(evname, name, src, d, pre=pre)
